@@ -213,6 +213,13 @@ def _replay_batch(chk, recs, variants, allowed, extra_judge, timeout, state):
                 if r["scn"]["path"] == "slow" or r["scn"]["bin"] != "none" or r["scn"]["cfg"]["term"] == "nul":
                     continue
                 j["multi_line"] = True
+            elif v == "multiline_nm":
+                # multi-line mode requested; the matcher has no terminator of its own but declares the terminator byte
+                # non-matching (what rg's matcher does under -U for a pattern that cannot match it): still line by line
+                if r["scn"]["path"] != "fast" or r["scn"]["bin"] != "none" or r["scn"]["cfg"]["term"] == "nul":
+                    continue
+                j["multi_line"] = True
+                j["nm_only"] = True
             jobs.append(j)
     obs = vlib.run_driver("replay_search", jobs, parallel=12, timeout=timeout)
     chk.evaluations += len(jobs)
